@@ -56,3 +56,58 @@ class C13y_fixpoint_2phi(Contract):
 
     def raises(self, stmt, run_body):
         return {}
+
+
+class C13y_fixpoint_3phi(Contract):
+    """BOUNDED STAND-IN: a loop with 3 phis"""
+    target = 'fpy2.analysis.value_class:_ValueClassInstance._fixpoint'
+    params = {'self': 'FixProbe', 'stmt': 'LoopStub', 'run_body': 'BodyStub'}
+    aliases = {'run_body.loop': 'stmt'}
+    returns = 'None'
+    properties = ['C13']
+    inline = True
+    modifies = ['stmt.row', 'run_body.calls']
+    options = {'seq_len': {'stmt.row': 3}, 'bounded': 8, 'bounded_refute': True}
+    note = 'bounded stand-in: loop with 3 phis; one-atom class lattice; abstract (uninterpreted) body walk'
+
+    def pre(self, stmt, run_body):
+        return {'fresh_body': run_body.calls == 0}
+
+    def post(self, stmt, run_body, result):
+        return fix_post(stmt.row, run_body, 3)
+
+    def raises(self, stmt, run_body):
+        return {}
+
+
+class C13y_fixpoint_2phi_monotone(Contract):
+    """BOUNDED STAND-IN: 2 phis, MONOTONE body walk: the phi classes only grow, so the walk settles within
+    (lattice height = 2 in the one-atom model) + 1 rounds and never reaches the drop-to-top branch"""
+    target = 'fpy2.analysis.value_class:_ValueClassInstance._fixpoint'
+    params = {'self': 'FixProbe', 'stmt': 'LoopStub', 'run_body': 'BodyStub'}
+    aliases = {'run_body.loop': 'stmt'}
+    returns = 'None'
+    properties = ['C13']
+    inline = True
+    modifies = ['stmt.row', 'run_body.calls']
+    options = {'seq_len': {'stmt.row': 2}, 'bounded': 8, 'bounded_refute': True}
+    note = ('bounded stand-in: loop with 2 phis; one-atom class lattice; the body walk is an uninterpreted MONOTONE '
+            'function (axioms: monotonicity of the ghost c13y_body2)')
+
+    def pre(self, stmt, run_body):
+        return {'fresh_body': run_body.calls == 0}
+
+    def axioms(self, stmt, run_body):
+        return body2_monotone()
+
+    def post(self, stmt, run_body, result, old):
+        out = fix_post(stmt.row, run_body, 2)
+        out['settles'] = run_body.calls <= 3                 # no widening needed: at most height + 1 rounds
+        for i in range(2):
+            p = stmt.row[i]
+            out['exact_join_' + str(i)] = p.cls == (p.lhs.cls or p.rhs.cls)
+            out['grows_from_entry_edge_' + str(i)] = implies(old.stmt.row[i].lhs.cls, p.cls)
+        return out
+
+    def raises(self, stmt, run_body):
+        return {}
